@@ -15,6 +15,7 @@ import (
 
 	"github.com/ethereum/go-ethereum/core/types/goattypes"
 	lockingtypes "github.com/goatnetwork/goat/x/locking/types"
+	"pgregory.net/rapid"
 )
 
 type lockChecker func(w *lockWorld, o *Outcome) *Failure
@@ -67,10 +68,10 @@ func classifyCometError(s string) string {
 		return "removal-of-non-member"
 	case strings.Contains(s, "duplicate"):
 		return "duplicate"
-	case strings.Contains(s, "exceeded"), strings.Contains(s, "overflow"):
+	case strings.Contains(s, "exceeded"), strings.Contains(s, "overflow"), strings.Contains(s, "exceeds max"), strings.Contains(s, "can't be higher than"),
+		strings.Contains(s, "negative"):
+		// one root cause: voting power is not bounded (a power >= 2^63 shows up as a negative int64)
 		return "total-power-overflow"
-	case strings.Contains(s, "negative"):
-		return "negative-power"
 	case strings.Contains(s, "empty set"), strings.Contains(s, "applying the validator changes would result in empty set"):
 		return "empty-set"
 	}
@@ -723,3 +724,34 @@ func TestC15_Unlocks(t *testing.T) {
 }
 
 var _ = lockingtypes.Active
+
+// ---- C13, extreme regime: only "every update is acceptable / blocks never fail" ----
+
+func genLockCaseExtreme(t *rapid.T) LockCase {
+	c := genLockCase("C13", 12)(t)
+	bigW := []uint64{1, 1_000_000, 1 << 32, 1 << 53, 1 << 62, 1<<63 + 5, 1<<64 - 1}
+	bigA := []string{"1000000000000000000", "1000000000000000000000000", "1000000000000000000000000000000", "1267650600228229401496703205376", "170141183460469231731687303715884105727"}
+	for i := range c.Blocks {
+		b := &c.Blocks[i]
+		if rapid.IntRange(0, 2).Draw(t, "bigWeight") == 0 {
+			b.Weights = append(b.Weights, WeightReq{Tok: rapid.IntRange(0, len(c.Cfg.Tokens)-1).Draw(t, "wTok"), W: rapid.SampledFrom(bigW).Draw(t, "w")})
+		}
+		if rapid.IntRange(0, 1).Draw(t, "bigLock") == 0 {
+			b.Locks = append(b.Locks, LockReq{V: rapid.IntRange(1, lockUniverse-1).Draw(t, "lv"), Tok: rapid.IntRange(0, len(c.Cfg.Tokens)-1).Draw(t, "lt"), Amt: rapid.SampledFrom(bigA).Draw(t, "la")})
+		}
+	}
+	return c
+}
+
+func TestC13_Extreme(t *testing.T) {
+	RunProp(t, Prop[LockCase]{
+		ID: "C13", Name: "extreme", Quick: 320, Thor: 10_000,
+		Gen: genLockCaseExtreme,
+		Run: func(c LockCase) Outcome {
+			o := runLocking(c, "C13", func(w *lockWorld, o *Outcome) *Failure { return nil }, nil)
+			o.NonTrivial = true
+			return o
+		},
+		Rule: "extreme regime: the same histories with token weights up to 2^64-1 and lock amounts up to 2^127; only the clauses 'every reported change is acceptable to CometBFT' and 'begin/end-of-block logic never fails' are asserted (a validator or total power beyond CometBFT's MaxTotalVotingPower = MaxInt64/8 must never be reported)",
+	})
+}
